@@ -18,7 +18,7 @@ package service
 //@ property C06 roots github.com/mdzio/go-mqtt/topics.nextTopicLevel, (*github.com/mdzio/go-mqtt/topics.Manager).Subscribe, (*github.com/mdzio/go-mqtt/topics.Manager).Unsubscribe, (*github.com/mdzio/go-mqtt/topics.Manager).Subscribers, (*github.com/mdzio/go-mqtt/topics.MemTopics).Subscribe, (*github.com/mdzio/go-mqtt/topics.MemTopics).Unsubscribe, (*github.com/mdzio/go-mqtt/topics.MemTopics).Subscribers, (*github.com/mdzio/go-mqtt/topics.snode).sinsert, (*github.com/mdzio/go-mqtt/topics.snode).sremove, (*github.com/mdzio/go-mqtt/topics.snode).smatch, (*github.com/mdzio/go-mqtt/topics.snode).matchQos, github.com/mdzio/go-mqtt/topics.NewMemProvider, github.com/mdzio/go-mqtt/topics.newSNode, (*github.com/mdzio/go-mqtt/topics.MemTopics).Retain, (*github.com/mdzio/go-mqtt/topics.MemTopics).Retained, (*github.com/mdzio/go-mqtt/topics.rnode).rinsert, (*github.com/mdzio/go-mqtt/topics.rnode).rremove, (*github.com/mdzio/go-mqtt/topics.rnode).rmatch, (*github.com/mdzio/go-mqtt/topics.rnode).allRetained, github.com/mdzio/go-mqtt/topics.newRNode
 //@ property C07 roots (*service).processUnsubscribe, (*service).processSubscribe, (*github.com/mdzio/go-mqtt/message.SubackMessage).AddReturnCodes, (*github.com/mdzio/go-mqtt/message.SubackMessage).AddReturnCode, (*github.com/mdzio/go-mqtt/message.SubscribeMessage).Decode, (*github.com/mdzio/go-mqtt/message.UnsubscribeMessage).Decode, (*github.com/mdzio/go-mqtt/message.SubackMessage).Encode, (*github.com/mdzio/go-mqtt/topics.Manager).Subscribe, (*github.com/mdzio/go-mqtt/topics.Manager).Unsubscribe, (*github.com/mdzio/go-mqtt/topics.MemTopics).Subscribe, (*github.com/mdzio/go-mqtt/topics.MemTopics).Unsubscribe, (*github.com/mdzio/go-mqtt/topics.snode).sinsert, (*github.com/mdzio/go-mqtt/topics.snode).sremove
 //@ property C11 roots (*Server).handleConnection, (*Server).getSession, (*github.com/mdzio/go-mqtt/message.ConnectMessage).Decode, (*github.com/mdzio/go-mqtt/message.ConnectMessage).decodeMessage, (*github.com/mdzio/go-mqtt/message.ConnectMessage).validClientID, (*github.com/mdzio/go-mqtt/message.ConnackMessage).Encode
-//@ property C05 roots (*buffer).Close, (*buffer).Read, (*buffer).ReadPeek, (*buffer).ReadWait, (*buffer).ReadCommit, (*buffer).Write, (*buffer).WriteWait, (*buffer).WriteCommit, (*buffer).waitForWriteSpace, (*buffer).ReadFrom, (*buffer).WriteTo, (*service).onPublish, getMessageBuffer, getConnectMessage, (*service).peekMessageSize, (*service).peekMessage, (*github.com/mdzio/go-mqtt/message.ConnectMessage).Decode
+//@ property C05 roots (*buffer).Close, (*buffer).Read, (*buffer).ReadPeek, (*buffer).ReadWait, (*buffer).ReadCommit, (*buffer).Write, (*buffer).WriteWait, (*buffer).WriteCommit, (*buffer).waitForWriteSpace, (*buffer).ReadFrom, (*buffer).WriteTo, (*service).onPublish, getMessageBuffer, getConnectMessage, (*service).peekMessageSize, (*service).peekMessage, (*github.com/mdzio/go-mqtt/message.ConnectMessage).Decode, (*service).processor
 //@ property C08 roots (*service).start$1, (*service).onPublish, (*Server).Publish, (*service).processSubscribe, (*service).publish, (*github.com/mdzio/go-mqtt/message.PublishMessage).SetRetain, (*github.com/mdzio/go-mqtt/message.PublishMessage).SetQoS, (*github.com/mdzio/go-mqtt/message.PublishMessage).Clone, (*github.com/mdzio/go-mqtt/topics.Manager).Retain, (*github.com/mdzio/go-mqtt/topics.Manager).Retained, (*github.com/mdzio/go-mqtt/topics.MemTopics).Retain, (*github.com/mdzio/go-mqtt/topics.rnode).rinsert, (*github.com/mdzio/go-mqtt/topics.rnode).rremove, (*github.com/mdzio/go-mqtt/topics.MemTopics).Retained, (*github.com/mdzio/go-mqtt/topics.rnode).rmatch, (*github.com/mdzio/go-mqtt/topics.rnode).allRetained, github.com/mdzio/go-mqtt/topics.newRNode
 //@ property C20 roots (*Client).Connect, (*Client).ConnectTLS, getConnackMessage, (*service).subscribe, (*service).subscribe$1, (*service).unsubscribe, (*service).unsubscribe$1, (*service).ping, (*service).processPublish, (*service).processIncoming, (*service).processAcked, (*service).onPublish, (*github.com/mdzio/go-mqtt/message.ConnackMessage).Decode
 //@ property C19 roots (*service).processIncoming, (*service).receiver, (timeoutReader).Read, (*service).stop, (*github.com/mdzio/go-mqtt/sessions.Session).Update
@@ -26,7 +26,7 @@ package service
 // Only the keep-alive reader and the connection set-up may arm the socket's read deadline: every function that calls
 // SetReadDeadline must be under contract (a new caller without one is a binding failure of C19).
 //@ property C19 callers net.Conn.SetReadDeadline, netReader.SetReadDeadline
-//@ property C17 roots (*service).writeMessage, (*stat).increment, (*buffer).WriteTo, (*buffer).ReadPeek, (*buffer).ReadCommit, (*buffer).ReadFrom
+//@ property C17 roots (*service).writeMessage, (*stat).increment, (*buffer).WriteTo, (*buffer).ReadPeek, (*buffer).ReadCommit, (*buffer).ReadFrom, (*service).processor
 //@ property C17 callers (*buffer).Write, (*buffer).WriteWait, (*buffer).WriteCommit
 //@ property C15 roots (*buffer).Close, (*buffer).Read, (*buffer).ReadPeek, (*buffer).ReadWait, (*buffer).ReadCommit, (*buffer).Write, (*buffer).WriteWait, (*buffer).WriteCommit, (*buffer).waitForWriteSpace, (*buffer).ReadFrom, (*buffer).WriteTo
 //@ property C14 roots (*sequence).get, (*sequence).set, (*buffer).isDone, (*buffer).Len, (*buffer).waitForWriteSpace, (*buffer).WriteWait, (*buffer).WriteCommit, (*buffer).Write, ringCopy, (*buffer).ReadPeek, (*buffer).ReadWait, (*buffer).ReadCommit, (*buffer).Read, (*buffer).Close, (*buffer).ReadFrom, (*buffer).WriteTo, newBuffer, powerOfTwo64, newSequence
@@ -229,7 +229,8 @@ func vspecCovered(x int64, start int64, c int64, size int64) bool {
 //@   ensures[C14:commit] err == nil ==> r == n && 0 <= n && bf.cseq.cursor == old(bf.cseq.cursor)+int64(n) && bf.cseq.cursor <= bf.pseq.cursor
 //@   ensures[C14:none] err != nil ==> r == 0 && bf.cseq.cursor == old(bf.cseq.cursor)
 //@   ensures[C15:signal] err == nil ==> gfield(bf.pcond, "bcast") > old(gfield(bf.pcond, "bcast"))
-//@   modifies bf.cseq.cursor, gfield(bf.pcond, "bcast"), heap("GF.clock"), heap("GF.lockedAt"), heap("GF.readAt"), heap("GF.doneAt"), heap("GF.doneSeen")
+//@   ensures[ghostdef-ncommit] gfield(0, "ncommit") == old(gfield(0, "ncommit"))+1
+//@   modifies gfield(0, "ncommit"), bf.cseq.cursor, gfield(bf.pcond, "bcast"), heap("GF.clock"), heap("GF.lockedAt"), heap("GF.readAt"), heap("GF.doneAt"), heap("GF.doneSeen")
 
 // ReadWait: wait until n bytes are available and return them (in place, or assembled in tmp when they wrap).
 //@ func (*buffer).ReadWait
@@ -354,7 +355,7 @@ func vspecCovered(x int64, start int64, c int64, size int64) bool {
 //@   loop 1 invariant[frame] unchangedoutside(bf.buf, 0, len(bf.buf)) && preservedexcept(bf.buf, bf.tmp) && unchangedoutside(old(bf.tmp), 0, cap(old(bf.tmp))) && (fresh(arr(bf.tmp)) || (arr(bf.tmp) == arr(old(bf.tmp)) && off(bf.tmp) == off(old(bf.tmp)) && cap(bf.tmp) == cap(old(bf.tmp))))
 //@   ensures[C14:ring] vdefRing(bf) && bf.cseq.cursor >= old(bf.cseq.cursor)
 //@   ensures[C15:close] bf.done == 1
-//@   modifies bf.cseq.cursor, bf.cwait, bf.tmp, capelems(bf.tmp), bf.done, heap("GF.bcast"), heap("GF.clock"), heap("GF.lockedAt"), heap("GF.readAt"), heap("GF.doneAt"), heap("GF.doneSeen")
+//@   modifies heap("GF.ncommit"), bf.cseq.cursor, bf.cwait, bf.tmp, capelems(bf.tmp), bf.done, heap("GF.bcast"), heap("GF.clock"), heap("GF.lockedAt"), heap("GF.readAt"), heap("GF.doneAt"), heap("GF.doneSeen")
 
 // ---------------------------------------------------------------- C17: whole packets on the outgoing ring
 //@ func (*stat).increment
@@ -568,6 +569,7 @@ func vspecCovered(x int64, start int64, c int64, size int64) bool {
 //@   rely modifies p.out.pseq.cursor, p.out.pseq.gate, p.out.cseq.cursor, p.out.done, p.out.pwait, elems(p.out.buf)
 //@   rely ensures vdefRing(p.out) && arr(p.outtmp) != arr(p.out.buf)
 //@   atcall (*service).processAcked assumes unchanged(ifaceval(msg, *message.header).packetID)
+//@   ensures[ghostdef-proc] gfield(0, "nproc") == old(gfield(0, "nproc"))+1
 //@   ensures[C02:pubrel] typeis(msg, *message.PubrelMessage) ==> gfield(p, "n7") <= old(gfield(p, "n7"))+1 && (err == nil ==> gfield(p, "n7") == old(gfield(p, "n7"))+1 && gfield(p, "id7") == old(vdefWID(msg)))
 //@   ensures[C12:pubrec] typeis(msg, *message.PubrecMessage) ==> gfield(p, "n6") <= old(gfield(p, "n6"))+1 && (err == nil ==> gfield(p, "n6") == old(gfield(p, "n6"))+1 && gfield(p, "id6") == old(vdefWID(msg)))
 //@   ensures[C19:ping] typeis(msg, *message.PingreqMessage) ==> gfield(p, "n13") <= old(gfield(p, "n13"))+1 && (err == nil ==> gfield(p, "n13") == old(gfield(p, "n13"))+1)
@@ -576,7 +578,7 @@ func vspecCovered(x int64, start int64, c int64, size int64) bool {
 //@   ensures[C02:acks-only-on-request] !typeis(msg, *message.PubrelMessage) ==> gfield(p, "n7") == old(gfield(p, "n7"))
 //@   ensures[C12:acks-only-on-request] !typeis(msg, *message.PubrecMessage) ==> gfield(p, "n6") == old(gfield(p, "n6"))
 //@   ensures[C19:acks-only-on-request] !typeis(msg, *message.PingreqMessage) ==> gfield(p, "n13") == old(gfield(p, "n13"))
-//@   modifies modset(Callback), modset(Out), modset(AckQ), heap("GF.ncomp"), heap("GF.nlog"), p.subs, p.qoss, allelems(interface{}), modset(TopicStore), heap("GF.ndlv"), heap("GF.lastdlv"), heap("GF.decarr"), heap("GF.decoff"), heap("GF.declen"), ifaceval(msg, *message.header).remlen, ifaceval(msg, *message.header).dirty, ifaceval(msg, *message.header).packetID, p.sess.Cmsg.connectFlags, p.sess.Cmsg.dirty, gfield(p, "n4"), gfield(p, "id4"), gfield(p, "n5"), gfield(p, "id5"), gfield(p, "n6"), gfield(p, "id6"), gfield(p, "n7"), gfield(p, "id7"), gfield(p, "n9"), gfield(p, "id9"), gfield(p, "n11"), gfield(p, "id11"), gfield(p, "n13"), gfield(p, "id13"), gfield(p, "n3"), gfield(p, "id3"), p.rmsgs, modset(SessTopics), allelems(*message.PublishMessage), allfields(message.header), allfields(message.PublishMessage), allfields(message.SubackMessage), heap("GF.nsub"), heap("GF.subarr"), heap("GF.suboff"), heap("GF.sublen"), heap("GF.subreq"), heap("GF.subres"), heap("GF.nunsub"), heap("GF.unsubarr"), heap("GF.unsuboff"), heap("GF.unsublen")
+//@   modifies gfield(0, "nproc"), modset(Callback), modset(Out), modset(AckQ), heap("GF.ncomp"), heap("GF.nlog"), p.subs, p.qoss, allelems(interface{}), modset(TopicStore), heap("GF.ndlv"), heap("GF.lastdlv"), heap("GF.decarr"), heap("GF.decoff"), heap("GF.declen"), ifaceval(msg, *message.header).remlen, ifaceval(msg, *message.header).dirty, ifaceval(msg, *message.header).packetID, p.sess.Cmsg.connectFlags, p.sess.Cmsg.dirty, gfield(p, "n4"), gfield(p, "id4"), gfield(p, "n5"), gfield(p, "id5"), gfield(p, "n6"), gfield(p, "id6"), gfield(p, "n7"), gfield(p, "id7"), gfield(p, "n9"), gfield(p, "id9"), gfield(p, "n11"), gfield(p, "id11"), gfield(p, "n13"), gfield(p, "id13"), gfield(p, "n3"), gfield(p, "id3"), p.rmsgs, modset(SessTopics), allelems(*message.PublishMessage), allfields(message.header), allfields(message.PublishMessage), allfields(message.SubackMessage), heap("GF.nsub"), heap("GF.subarr"), heap("GF.suboff"), heap("GF.sublen"), heap("GF.subreq"), heap("GF.subres"), heap("GF.nunsub"), heap("GF.unsubarr"), heap("GF.unsuboff"), heap("GF.unsublen")
 
 // Session subscription list.
 //@ modset SessTopics allmaps(map[string]byte)
@@ -675,6 +677,31 @@ func vspecCovered(x int64, start int64, c int64, size int64) bool {
 //@   ensures[C07:never-silent] gfield(p, "n11") == old(gfield(p, "n11"))+1 || gfield(p, "wfail") == old(gfield(p, "wfail"))+1
 //@   ensures[inv] vdefProc(p)
 //@   modifies modset(Out), modset(TopicStore), modset(SessTopics), heap("GF.nunsub"), heap("GF.unsubarr"), heap("GF.unsuboff"), heap("GF.unsublen"), heap("GF.nlog"), gfield(p, "n11"), gfield(p, "id11")
+
+// processor (the per-connection packet loop; C17, C02, C05): a thin ordering contract. The preconditions of its
+// callees are ASSUMED here (flag assumepre: peekMessage's contract does not yet say that the decoded message is
+// well-formed, and the handlers' frames are too coarse to carry the incoming ring's state across a packet), so
+// what is proved is only the order of events in one iteration: the bytes of a packet stay reserved in the incoming
+// ring (uncommitted) while the packet is processed - the decoded message and everything forwarded from it point into
+// them - and exactly the peeked packet is committed afterwards, once per processed packet.
+// Ghost: nproc / ncommit count processIncoming / ReadCommit calls of this goroutine.
+//@ closure (*service).processor$1
+//@   flag bodyhash 38229df3f6dc
+//@   trusted
+// isDone: a non-blocking poll of the done channel (select is outside the subset): trusted, no effect on the heap.
+//@ func (*service).isDone
+//@   flag bodyhash faafc114b41d
+//@   trusted
+//@   pure
+//@ func (*service).processor
+//@   flag noframe
+//@   flag assumepre
+//@   requires p.in != nil
+//@   loop 1 invariant p.in != nil
+//@   atcall (*service).processIncoming requires[C17:packet-still-reserved] gfield(0, "nproc")-old(gfield(0, "nproc")) == gfield(0, "ncommit")-old(gfield(0, "ncommit"))
+//@   atcall (*buffer).ReadCommit requires[C17:commit-after-processing] gfield(0, "nproc")-old(gfield(0, "nproc")) == gfield(0, "ncommit")-old(gfield(0, "ncommit"))+1
+//@   atcall (*buffer).ReadCommit requires[C17:commit-exactly-the-packet] n == total
+//@   loop 1 invariant[C17:one-commit-per-packet] gfield(0, "nproc")-old(gfield(0, "nproc")) == gfield(0, "ncommit")-old(gfield(0, "ncommit"))
 
 // ---------------------------------------------------------------- keep-alive (C19)
 // Every read from the socket is preceded by re-arming the read deadline to now + d (ghost: armed).
